@@ -892,3 +892,74 @@ Theorem reference_of_redacted ver j r : redact ver j = Some r -> reference_json 
 Proof.
   intro H. unfold reference_json. rewrite (redact_idempotent ver j r H), H. reflexivity.
 Qed.
+
+(* ================= shape of every redaction output (no premise on the input) ================= *)
+Definition listed (a : algo) (ty k : bytes) : Prop :=
+  match assoc_first ty (a_content a) with
+  | Some [] => True
+  | Some ks => In k ks
+  | None => False
+  end.
+
+Theorem redact_alg_output a j r :
+  algo_ok a = true -> redact_alg a j = Some r ->
+  exists out ty cj, r = JObj out /\
+    (forall k, In k (keys_of out) -> In k (top_keep a)) /\
+    assoc_first type_key out = Some (JStr ty) /\
+    assoc_first content_key out = Some cj /\
+    (cj = JNull \/ exists c, cj = JObj c /\ forall k, In k (keys_of c) -> listed a ty k).
+Proof.
+  intros Hok H.
+  destruct (algo_ok_facts a Hok) as (Hnd & Hfields & (ft & Ht1 & Ht2 & Ht3) & (fc & Hc1 & Hc2 & Hc3)).
+  unfold redact_alg, redact_alg_outcome in H.
+  destruct j as [| | | | |m]; try discriminate.
+  destruct (redact_members a m) as [r0|] eqn:Hr; [|discriminate]. inversion H; subst r0. clear H.
+  unfold redact_members in Hr.
+  destruct (decode (a_fields a) m) as [d|] eqn:Hd; [|discriminate].
+  destruct (emit_fields_spec d (filter_content (a_content a) d) (a_fields a) Hfields Hnd)
+    as (out & Hout & Hkeys & _ & Hlook).
+  rewrite Hout in Hr. inversion Hr; subst r. clear Hr.
+  exists out, (d_type d), (content_json (filter_content (a_content a) d)).
+  split; [reflexivity|]. split; [|split; [|split]].
+  - intros k Hk. destruct (Hkeys k Hk) as (f & Hf & Ef & _). subst k. unfold top_keep. apply in_map. exact Hf.
+  - rewrite <- Ht2, (Hlook ft Ht1). unfold emit_val. rewrite Ht3. reflexivity.
+  - rewrite <- Hc2, (Hlook fc Hc1). unfold emit_val. rewrite Hc3. reflexivity.
+  - unfold filter_content, listed.
+    destruct (assoc_first (d_type d) (a_content a)) as [[|k0 ks]|].
+    + destruct (d_content d) as [c|]; [right; exists c; split; [reflexivity|tauto]|left; reflexivity].
+    + right. eexists. split; [reflexivity|]. intros k Hk.
+      unfold keys_of in Hk. apply in_map_iff in Hk as (kv & Ek & Hin). apply filter_In in Hin as [_ Hkeep].
+      unfold keeps in Hkeep. apply mem_bytes_In in Hkeep. subst k. exact Hkeep.
+    + right. exists []. split; [reflexivity|]. simpl. tauto.
+Qed.
+
+(* ================= events that agree on the protected material redact alike ================= *)
+Theorem redact_members_protected_only a m m' :
+  algo_ok a = true ->
+  exact_keys a m -> exact_keys a m' -> type_ok m -> type_ok m' -> content_ok m -> content_ok m' ->
+  (forall f, In f (a_fields a) -> fkind_of f = FRaw -> assoc_first (fname f) m' = assoc_first (fname f) m) ->
+  decoded_type m' = decoded_type m ->
+  kept_content a (decoded_type m') (decoded_content m') = kept_content a (decoded_type m) (decoded_content m) ->
+  redact_members a m' = redact_members a m.
+Proof.
+  intros Hok [Hn He] [Hn' He'] Hty Hty' Hco Hco' Hraw Htype Hkept.
+  destruct (algo_ok_facts a Hok) as (Hnd & Hfields & (ft & Hft) & (fc & Hfc)).
+  destruct (decode_exact (a_fields a) Hnd Hfields ft fc Hft Hfc m d_init Hn He Hty Hco) as (d & Hd & Hr & Ht & Hc).
+  destruct (decode_exact (a_fields a) Hnd Hfields ft fc Hft Hfc m' d_init Hn' He' Hty' Hco') as (d' & Hd' & Hr' & Ht' & Hc').
+  assert (Etype : d_type d' = d_type d).
+  { rewrite Ht, Ht'. exact Htype. }
+  assert (Econtent : filter_content (a_content a) d' = filter_content (a_content a) d).
+  { assert (forall mm dd, d_type dd = match assoc_first type_key mm with Some (JStr s) => utf8_sanitize s | _ => d_type d_init end ->
+              d_content dd = match assoc_first content_key mm with
+                             | Some (JObj c) => Some (fold_left set_member (norm_members c) (old_content d_init))
+                             | Some JNull => None
+                             | _ => d_content d_init end ->
+              filter_content (a_content a) dd = kept_content a (decoded_type mm) (decoded_content mm)) as Hgen.
+    { intros mm dd Htt Hcc. unfold filter_content, kept_content, decoded_type, decoded_content.
+      rewrite Htt, Hcc. simpl d_type. simpl d_content. unfold old_content. simpl d_content. fold dedupe.
+      destruct (assoc_first content_key mm) as [[]|]; reflexivity. }
+    rewrite (Hgen m' d' Ht' Hc'), (Hgen m d Ht Hc). exact Hkept. }
+  unfold redact_members, decode. unfold decode_from in Hd, Hd'. rewrite Hd, Hd', Econtent.
+  rewrite (emit_fields_ext d d' (filter_content (a_content a) d) (a_fields a)); [reflexivity| |exact Etype].
+  intros f Hf Hk. rewrite Hr, Hr'. rewrite (Hraw f Hf Hk). reflexivity.
+Qed.
